@@ -38,6 +38,12 @@ LineAcceptRetruncated(r, moves, endp, retr) ==
       /\ R \subseteq T                                   \* only voxels within one re-stored row of the segment
       /\ endp \in Reachable(Rx, <<0, 0, 0>>)            \* connected once the re-stored end voxels are added
 
+\* the same defect seen through NewPoint / SetLat alone (C15): a latitude that already is a
+\* multiple of 1e-10 degree is cut by one whole step (1e-10, not less than 1e-10).
+\* cut = floor((|lat in| - |lat stored|) / 1e-13), exact on the float64 values
+PointStoreWholeStep(lonSame, altSame, toward, cut, ongrid) ==
+  lonSame /\ altSame /\ toward /\ ongrid /\ cut >= 1000 /\ cut <= 1001
+
 \* ---- (2) repaired ------------------------------------------------------------
 \* D1: vertical zoom-out with Go's truncating division
 VerticalZoomMinMaxTrunc(zi, f, zo) ==
